@@ -10,6 +10,10 @@ import (
 	"io"
 )
 
+// maxConsecutiveEmptyReads is how many reads in a row may return
+// neither data nor an error before the stream is given up (io.ErrNoProgress).
+const maxConsecutiveEmptyReads = 100
+
 // H265Reader reads data from stream and constructs h265 nal units.
 type H265Reader struct {
 	stream                      io.Reader
@@ -98,15 +102,31 @@ type NAL struct {
 }
 
 func (reader *H265Reader) read(numToRead int) (data []byte, e error) {
+	emptyReads := 0
 	for len(reader.readBuffer) < numToRead {
 		n, err := reader.stream.Read(reader.tmpReadBuf)
+		// An io.Reader may return the last bytes together with io.EOF,
+		// and may return no bytes without an error: neither ends the stream.
+		reader.readBuffer = append(reader.readBuffer, reader.tmpReadBuf[0:n]...)
+		if errors.Is(err, io.EOF) {
+			if len(reader.readBuffer) < numToRead {
+				return nil, io.EOF
+			}
+
+			break
+		}
 		if err != nil {
 			return nil, err
 		}
 		if n == 0 {
-			break
+			emptyReads++
+			if emptyReads >= maxConsecutiveEmptyReads {
+				return nil, io.ErrNoProgress
+			}
+
+			continue
 		}
-		reader.readBuffer = append(reader.readBuffer, reader.tmpReadBuf[0:n]...)
+		emptyReads = 0
 	}
 
 	numShouldRead := min(numToRead, len(reader.readBuffer))
@@ -174,8 +194,13 @@ func (reader *H265Reader) NextNAL() (*NAL, error) {
 
 	for {
 		buffer, err := reader.read(1)
-		if err != nil {
+		if errors.Is(err, io.EOF) {
 			break
+		}
+		if err != nil {
+			// a failed read is not the end of the stream, the bytes
+			// buffered so far are not a complete NAL
+			return nil, err
 		}
 
 		n := len(buffer)
@@ -200,6 +225,13 @@ func (reader *H265Reader) NextNAL() (*NAL, error) {
 	}
 
 	if len(reader.nalBuffer) == 0 {
+		return nil, io.EOF
+	}
+
+	if reader.shouldSkipNAL(NalUnitType((reader.nalBuffer[0] & 0x7E) >> 1)) {
+		// the last unit of the stream is skipped like any other SEI
+		reader.nalBuffer = nil
+
 		return nil, io.EOF
 	}
 
